@@ -1720,3 +1720,71 @@ Proof.
   - congruence.
   - intros g. apply told_cond_seteq. exact Hs.
 Qed.
+
+(* ------------------------------------------------------------ single state *)
+
+Lemma nth_in_firstn : forall (l : list nat) i d, i < length l -> In (nth i l d) (firstn (S i) l).
+Proof.
+  induction l as [|x r IH]; intros i d H; simpl in H; [lia|].
+  destruct i as [|i]; [left; reflexivity|]. cbn [nth]. rewrite firstn_cons. right. apply IH. lia.
+Qed.
+
+Lemma walk_full_single : forall neg x a act deact,
+  walk_full neg [x] a act deact = mem x (act ++ deact) && Bool.eqb (mem x act) (negb neg).
+Proof.
+  intros neg x a act deact. unfold walk_full. set (all := act ++ deact).
+  match goal with |- existsb ?f _ = _ => set (pred := f) end.
+  destruct (mem x all && Bool.eqb (mem x act) (negb neg)) eqn:E.
+  - apply andb_true_iff in E. destruct E as [E1 E2]. apply mem_In in E1.
+    destruct (In_nth all x 0 E1) as [i [Hi Hn]].
+    apply existsb_exists. exists (S i). split; [apply in_seq; lia|].
+    unfold pred. replace (S i - 1) with i by lia. rewrite Hn. cbn [mem existsb forallb].
+    rewrite Nat.eqb_refl. cbn [orb andb]. rewrite andb_true_r.
+    unfold hybrid. assert (Hm : mem x (firstn (S i) all) = true).
+    { apply mem_In. rewrite <- Hn. apply nth_in_firstn. exact Hi. }
+    rewrite Hm. exact E2.
+  - destruct (existsb pred (seq 1 (length all))) eqn:Ex; [|reflexivity]. exfalso.
+    apply existsb_exists in Ex. destruct Ex as [n [Hn Hp]]. apply in_seq in Hn.
+    unfold pred in Hp. cbn [mem existsb forallb] in Hp. rewrite orb_false_r, andb_true_r in Hp.
+    apply andb_true_iff in Hp. destruct Hp as [Hp1 Hp2]. apply Nat.eqb_eq in Hp1.
+    assert (Hi : n - 1 < length all) by lia.
+    assert (Hx : In x all). { rewrite <- Hp1. apply nth_In. exact Hi. }
+    assert (Hm : mem x (firstn n all) = true).
+    { apply mem_In. rewrite <- Hp1 at 1. replace n with (S (n - 1)) at 2 by lia.
+      apply nth_in_firstn. exact Hi. }
+    unfold hybrid in Hp2. rewrite Hm in Hp2.
+    apply mem_In in Hx. rewrite Hx, Hp2 in E. discriminate.
+Qed.
+
+Lemma walked_single : forall neg x post a,
+  Bool.eqb (a x) (negb neg) = false ->
+  walked_later neg [x] a post = held_later (fun a' => Bool.eqb (a' x) (negb neg)) a post.
+Proof.
+  intros neg x. induction post as [|e r IH]; intros a Ha; [reflexivity|].
+  cbn [walked_later held_later].
+  destruct e as [k v o|ac de|ac de bf lv qt| |v p|]; try (cbn [act_upd orb]; apply IH; exact Ha).
+  rewrite walk_full_single. cbn [act_upd]. rewrite mem_app.
+  destruct (mem x ac) eqn:E1.
+  - cbn [orb andb]. destruct (Bool.eqb true (negb neg)) eqn:E; [reflexivity|]. cbn [orb].
+    apply IH. cbn. rewrite E1. exact E.
+  - cbn [orb]. destruct (mem x de) eqn:E2.
+    + cbn [andb]. destruct (Bool.eqb false (negb neg)) eqn:E; [reflexivity|]. cbn [orb].
+      apply IH. cbn. rewrite E1, E2. exact E.
+    + cbn [andb orb]. rewrite Ha. cbn [orb]. apply IH. cbn. rewrite E1, E2. exact Ha.
+Qed.
+
+(* When1 / WhenNot1: closed <-> the state was (in)active on the told activity
+   when subscribing or at the end of a later processed transition *)
+Theorem when_single_state_iff_lemma : forall a0 pre k v neg x ctx post,
+  let es := pre ++ EOp k v (when_op neg [x] ctx) :: post in
+  forallb plain_ev es = true -> coherent a0 es -> fresh_k k post -> known v [x] = true ->
+  let a1 := acts a0 pre in
+  closed_of (run init_sst es) k
+  = Bool.eqb (a1 x) (negb neg) || held_later (fun a' => Bool.eqb (a' x) (negb neg)) a1 post.
+Proof.
+  intros a0 pre k v neg x ctx post es Hp Hc Hf Hk a1.
+  pose proof (when_iff_lemma a0 pre k v neg [x] ctx post Hp Hc Hf Hk) as H.
+  cbv zeta in H. fold es a1 in H. rewrite H. unfold told_cond. cbn [forallb]. rewrite andb_true_r.
+  destruct (Bool.eqb (a1 x) (negb neg)) eqn:E; [reflexivity|]. cbn [orb].
+  apply walked_single. exact E.
+Qed.
